@@ -266,7 +266,10 @@ class Summ:
                 t = key[1]
                 if t[0] == "intsw":
                     return B.atom(("pred", ("intsw", core.subst_params(t[1], env), t[2])))
-                return B.atom(("pred", core.subst_params(t, env)))
+                t2 = core.subst_params(t, env)
+                if t2[0] == "const" and t2[1] == "bool":
+                    return B.T if t2[2] else B.F
+                return B.atom(("pred", t2))
             return None
         return B.subst_atoms(f, fn)
 
@@ -306,6 +309,17 @@ class Summ:
             raise Unanalysable("report nesting too deep")
         R = obj if obj is not None else body.val_local(0)
         out = []
+        if obj is None and R[0] == "call" and R[1] in self.crate.bodies and self.crate.bodies[R[1]].local_ty(0).startswith("std::collections::"):
+            # thin wrapper: the result is another local function's result
+            fb = self.crate.bodies[R[1]]
+            env = {i + 1: a for i, a in enumerate(R[2])}
+            site = None
+            for s in S.call_sites(body):
+                if s.path == R[1]:
+                    site = s
+            for (t, f, s2) in self.reports(fb, None, depth + 1):
+                out.append((core.subst_params(t, env), self.subst(f, env), site or s2))
+            return out
         for s in S.call_sites(body):
             if not s.args or s.args[0] != R:
                 continue
